@@ -27,6 +27,10 @@ FAMILIES = {
 }
 SEED_OFFSET = {'C09': 9, 'C10': 10, 'C11': 11, 'C12': 12, 'C14': 14}
 ASSERTION_SITE_MIN = 20
+# site 22 (a row appears in a fully loaded collection) IS reachable: E(id=k) created while a row with pk k exists in the database and is
+# referred to by other rows - the new object's collections count as fully loaded, loading a referring row raises UnrepeatableReadError
+# (a pending duplicate key, like sites 7 and 8); found by the thorough tier.
+LEGIT_HIGH_SITES = {22}
 
 
 def gen_histories(seeds, length=(10, 40), oracle=True, chunk=100, jobs=4, malformed=0.15, stage=1):
@@ -139,7 +143,7 @@ def correspondence(ctx, prop, n_quick=300, n_thorough=20000):
         elif code == 2: dist['verdicts']['declined'] += 1
         elif code >= 100:
             dist['verdicts']['dirty-stop'] += 1; dist['dirty_sites'][str(code - 100)] += 1
-            if code - 100 >= ASSERTION_SITE_MIN: bad.append((h, code, idx))
+            if code - 100 >= ASSERTION_SITE_MIN and code - 100 not in LEGIT_HIGH_SITES: bad.append((h, code, idx))
         elif code == 9: bad.append((h, code, idx))
         else:
             dist['verdicts']['MISMATCH'] += 1; bad.append((h, code, idx))
